@@ -11,8 +11,15 @@ def file_format(fn):
     file_formats[name] = fn
 
 
+def check_length(code, container):
+    # The length field of these containers is 16-bit
+    if len(code) > 0xffff:
+        raise ValueError(f"The program is {len(code)} bytes long, but {container} can only hold up to 65535 bytes.")
+
+
 @file_format
 def bin_(base, code):
+    check_length(code, "a 'bin' file")
     return struct.pack("<HH", base, len(code)) + code
 
 
@@ -23,9 +30,11 @@ def raw(_base, code):
 
 @file_format
 def bk_wav(base, code, bk_filename):
+    check_length(code, "a BK tape record")
     return encode_as_wav(base, code, bk_filename)
 
 
 @file_format
 def bk_turbo_wav(base, code, bk_filename):
+    check_length(code, "a BK tape record")
     return encode_as_wav(base, code, bk_filename, turbo=True)
